@@ -1185,6 +1185,8 @@ class Interp:
             if not documented:
                 for r in runs:
                     r[var] = UndocBinding("binding name of a template with a path/extension")
+        if len(runs) > 1 and stmt_kinds(body) & {"assign", "capture"}:
+            raise Undoc("render ... for: whether assignments persist between iterations is not documented")
         for b in runs:
             child = self.child()
             child.include_disabled = True
